@@ -13,5 +13,9 @@ Next == /\ x = 0 /\ x' = 1
               termlen |-> [k \in 1..44 |-> TermLen(AllVersions[k])],
               total |-> [k \in 1..44 |-> TotalCodewords(AllVersions[k])],
               layout |-> [k \in 1..44 |-> LET v == AllVersions[k] IN [e \in {"L","M","Q","H","-"} |-> IF HasLevel(v, e) THEN Layout(v, e) ELSE <<>>]],
+              \* which modules are data modules (1) for the small versions and 7 (first with version information): used to craft symbols whose
+              \* data region holds adversarial patterns while every function pattern stays as the implementation drew it
+              datamap |-> [k \in 1..10 |-> LET v == <<-3, -2, -1, 0, 1, 2, 3, 4, 5, 7>>[k] g == Geo(v) IN
+                             [r \in 1..g.n |-> [c \in 1..g.n |-> IF ClassG(g, r-1, c-1) = "data" THEN 1 ELSE 0]]],
               selfcheck |-> GFSelfCheck(0) /\ ISOSelfCheck(0) ])>>)
 =============================================================================
